@@ -140,6 +140,18 @@ def cases_for(tier, rng):
                 for opts in (dict(), dict(start=1, size=n), dict(reverse=True)):
                     cases.append(dict(prog=[T('<'), In(N('seq'), bd, **opts), T('>'), V('x')],
                                       src=sources(kw={'seq': lst('S', items, ck), 'x': plain('outer-x')}), K=0, fk=[], svn=svn_table()))
+    # the preparation of the loop fails (a sort_expr / reverse_expr / batch parameter naming an undefined variable) after the
+    # sequence was evaluated: handled by an enclosing try, nothing of the tag stays behind -- the name is looked up afresh
+    fs = fn('FS2', lst('S', [elem('obj', 0, 'x1'), elem('obj', 1, 'x2')]))
+    fe = fn('FE', lst('E', []))
+    for pf in ('sort_expr', 'reverse_expr', 'size'):
+        for ref, nsx in ((N('fs'), {'fs': fs}), (N('fe'), {'fe': fe}), (X('ls'), {'ls': lst('S', [elem('obj', 0, 'x1')])})):
+            bad = In(ref, [T('never')], [T('EMPTY')], prepfail=pf)
+            again = In(ref, [V('sequence-index'), V('x')], [T('EMPTY2')])
+            for wrap in (lambda b: b, lambda b: [Let([('y', X('x'))], b)], lambda b: [With(X('o'), b)]):
+                prog = wrap([Try([bad], [([], [T('E:'), V('error_type')])], None), T('|'), again]) + [T('|'), V('x')]
+                cases.append(dict(prog=prog, src=sources(kw=dict(nsx, x=plain('outer-x'), o=obj('O', q=plain('Q')))), K=0, fk=[],
+                                  svn=svn_table()))
     # None is an element like any other (every pattern of None / string elements, every container)
     for n in range(1, 5):
         for pat in itertools.product((False, True), repeat=n):
